@@ -13,7 +13,10 @@ META = {
              "change; entered rounds strictly increase; every signature, save and timer refers to the current round; vote targets only from "
              "the strategy's answers. Refuted on the faithful model and reproduced on the code (known findings): finalize without quorum after "
              "a committed-header response, missing precommit decision after a prevote quorum seen first, five honest histories that panic. "
-             "Not proved (decided by monitors on the correspondence runs only): at-most-once prevote/precommit decision per round.",
+             "Over ALL event histories (Properties/C08Once.v): the step never decreases within a round; the precommit decision and the "
+             "final prevote choice are requested at most once per round; consider requests classified (per larger header set / block data), "
+             "none after the prevote was signed; rounds entered strictly increase across a lifetime (no-wrap guard). Refuted with witnesses "
+             "(not yet replayed on the code): a finalize request at most once per height / per round in one lifetime.",
     "note": "Trusted: Coq kernel, translator (cross-checked through the correspondence), harness/sm and the quiescence protocol, Go channel semantics. "
             "The 100 ms blocked-send panics and the consensus-manager hand-off timing are outside the model.",
     "design_ref": "DESIGN.md 4 (C08/C02), design/C08.md",
